@@ -71,8 +71,15 @@ void SelectLoop::runLoop(Mode mode)
                 bool is_except   = FD_ISSET(fd, &except_set);
 
                 if (is_readable || is_writable || is_except) {
-                    auto *data = fd_data_map_.at(fd);
+                    //! 前面的回调可能已经销毁了该fd上的所有事件
+                    auto iter = fd_data_map_.find(fd);
+                    if (iter == fd_data_map_.end())
+                        continue;
+
+                    auto *data = iter->second;
+                    ++data->ref;    //! 分发期间持有引用，防止回调中销毁最后一个事件令 data 被回收
                     SelectFdEvent::OnEventCallback(is_readable, is_writable, is_except, data);
+                    unrefFdSharedData(fd);
                 }
             }
         } else if (select_ret == -1) {
